@@ -49,7 +49,7 @@ func main() {
 	c := vlib.NewCheck("C15", "model_checking")
 	thorough := vlib.Tier() == "thorough"
 	seed := vlib.Seed()
-	rep := &reporter{c: c, seenKeys: map[string]int{}, soft: map[string]int{}}
+	rep := &reporter{c: c, seenKeys: map[string]int{}, soft: map[string]int{}, drifts: map[string]int{}}
 	scratch := vlib.Work("C15")
 	_ = os.RemoveAll(scratch)
 	t0 := time.Now()
@@ -115,17 +115,22 @@ func main() {
 		tcp    bool
 	}
 	modes := []mode{{"POST", false, false}, {"GET", false, false}, {"mix", true, tcp}}
-	nreq, nreplays := 0, 0
+	nreq, nreplays, ndrifted := 0, 0, 0
+	var ahs []*history
 	for i, p := range paths {
 		st := p[0].S
 		for j, m := range modes {
 			ro := rigOpts{Kind: st.Kind, Cap: st.Cap, QCache: m.qcache, TCP: m.tcp}
-			n, err := rep.replayPath(p, texts, valid, wrong, ro, m.method, seed*1000003+int64(i)*7+int64(j))
+			h, err := rep.replayPath(fmt.Sprintf("t%03d-%s", i, m.method), p, texts, valid, wrong, ro, m.method, seed*1000003+int64(i)*7+int64(j))
 			if err != nil {
 				vlib.Infra("replay: %v", err)
 			}
-			nreq += n
+			ahs = append(ahs, h)
+			nreq += len(h.Steps)
 			nreplays++
+			if h.Drifted {
+				ndrifted++
+			}
 		}
 		if i == 0 {
 			var s []string
@@ -138,9 +143,8 @@ func main() {
 			c.Sample(map[string]any{"mechanism": "A", "cache": st.Kind, "cap": st.Cap, "path_len": len(p), "first_requests": s})
 		}
 	}
-	c.AddTraces(int64(nreplays))
-	fmt.Fprintf(os.Stderr, "[c15] A: %d states, %d edges, %d covering paths (max length %d), %d replays, %d requests, %.1fs\n",
-		len(g.nodes), len(g.edges), len(paths), maxLen, nreplays, nreq, time.Since(tA).Seconds())
+	fmt.Fprintf(os.Stderr, "[c15] A: %d states, %d edges, %d covering paths (max length %d), %d replays (%d left the implementation-level machine), %d requests, %.1fs\n",
+		len(g.nodes), len(g.edges), len(paths), maxLen, nreplays, ndrifted, nreq, time.Since(tA).Seconds())
 
 	// ---- 3. mechanism B: random histories validated by TLC ------------------
 	tB := time.Now()
@@ -206,30 +210,45 @@ func main() {
 			}
 		}
 	}
-	if (hits == 0 || misses == 0 || stats["lru:evictions"] == 0) && c.Violations() == 0 {
+	if (hits == 0 || misses == 0 || stats["lru:evictions"] == 0) && len(rep.drifts) == 0 {
 		vlib.Infra("vacuous random histories: %d hash-only hits, %d misses, %d evictions", hits, misses, stats["lru:evictions"])
 	}
+	// the VERDICT: every observed history (tours of A, histories of B) against the property level
+	tV := time.Now()
+	all := append(append([]*history{}, ahs...), hs...)
+	badH, events, err := rep.validateProp(all, scratch+"/trace")
+	if err != nil {
+		vlib.Infra("property-level trace validation: %v", err)
+	}
+	fmt.Fprintf(os.Stderr, "[c15] verdict: %d histories (%d lines) validated by TLC against the property level, %d leave it, %.1fs\n",
+		len(all), events, badH, time.Since(tV).Seconds())
+	// binding of the verdict path, demonstrated on a history that is itself clean
 	selfErr := errNoCandidate
 	for _, h := range hs {
-		if h.Workers == 1 {
+		if h.Workers == 1 && !h.Bad {
 			if selfErr = rep.selfTest(h, scratch+"/trace"); selfErr != errNoCandidate {
 				break
 			}
 		}
 	}
-	if selfErr != nil && c.Violations() == 0 {
+	switch {
+	case selfErr == nil:
+	case selfErr == errNoCandidate && (len(rep.drifts) > 0 || c.Violations() > 0):
+		// an implementation that registers nothing, or no clean history left
+		fmt.Fprintf(os.Stderr, "[c15] self-test of the trace validation skipped: %v\n", selfErr)
+	case c.Violations() > 0:
+		fmt.Fprintf(os.Stderr, "[c15] self-test of the trace validation: %v\n", selfErr)
+	default:
 		vlib.Infra("%v", selfErr)
 	}
-	events, err := rep.validate(hs, scratch+"/trace")
+	// implementation level, drift only
+	implOK, implUnchecked, err := rep.compareImpl(hs, scratch+"/trace")
 	if err != nil {
-		if c.Violations() > 0 {
-			fmt.Fprintf(os.Stderr, "[c15] trace validation stopped: %v\n", err)
-		} else {
-			vlib.Infra("trace validation: %v", err)
-		}
+		fmt.Fprintf(os.Stderr, "[c15] implementation-level comparison of the random histories stopped: %v\n", err)
+		rep.drift("B:comparison-stopped", err.Error())
 	}
-	fmt.Fprintf(os.Stderr, "[c15] B: %d histories x %d requests (%d concurrent), %d lines accepted by TLC, hash-only hits %d / misses %d, evictions %d, %.1fs\n",
-		len(hs), hlen, nh/3, events, hits, misses, stats["lru:evictions"], time.Since(tB).Seconds())
+	fmt.Fprintf(os.Stderr, "[c15] B: %d histories x %d requests (%d concurrent), %d follow the implementation-level machine exactly (%d not compared), hash-only hits %d / misses %d, evictions %d, %.1fs\n",
+		len(hs), hlen, nh/3, implOK, implUnchecked, hits, misses, stats["lru:evictions"], time.Since(tB).Seconds())
 
 	// ---- history-variable model check (ran in parallel) ----------------------
 	hr := <-histDone
@@ -256,16 +275,29 @@ func main() {
 		softKeys = []string{}
 	}
 	c.Set("error_wording_differences", softKeys)
+	driftTotal := 0
+	for _, n := range rep.drifts {
+		driftTotal += n
+	}
+	if rep.driftEx == nil {
+		rep.driftEx = []string{}
+	}
+	c.Set("impl_level_drift", map[string]any{"total": driftTotal, "by_key": rep.drifts, "examples": rep.driftEx,
+		"meaning": "observed behaviour differs from the implementation-level machine of Apq.tla but stays inside the property level of C15; never a verdict"})
+	if driftTotal > 0 {
+		fmt.Fprintf(os.Stderr, "[c15] impl_level_drift: %d differences in %d classes (the implementation-level actions of spec/Apq.tla no longer describe the code; C15 itself is judged by the property level only)\n", driftTotal, len(rep.drifts))
+	}
 	c.Set("model", map[string]any{"config": cfg, "distinct_states": mc.Distinct, "edges": len(g.edges), "covering_paths": len(paths),
 		"replays": nreplays, "replayed_requests": nreq, "history_config": hist, "history_states": hr.Distinct, "history_transitions": hr.Generated})
 	c.Set("trace_validation", map[string]any{"histories": len(hs), "requests_each": hlen, "concurrent_histories": nh / 3,
-		"lines_accepted": events, "hash_only_hits": hits, "hash_only_misses": misses, "lru_evictions": stats["lru:evictions"]})
+		"lines_validated_property_level": events, "histories_leaving_property_level": badH, "random_histories_matching_impl_level": implOK, "hash_only_hits": hits, "hash_only_misses": misses, "lru_evictions": stats["lru:evictions"]})
 	c.Set("wall_s_by_stage", map[string]any{"tlc_model": tMC, "replay": tB.Sub(tA).Seconds(), "random_histories": time.Since(tB).Seconds()})
 	c.Set("exhaustive", true)
-	c.Set("rule", "A: TLC enumerates the complete labelled state graph of Apq for the bounded alphabet (texts x request forms x cache map/LRU cap); every edge is replayed on the real server at least 3 times (POST, GET, mixed+query cache) inside tours from the initial state; a case class is (cache kind, request form, specification outcome). B: seeded random histories over a larger alphabet, recorded on the real server and validated by TLC; a case class is (cache kind, request form, observed outcome class). A case is non-trivial by construction: every class is a distinct (form, outcome) pair; evaluations = requests sent.")
+	c.Set("rule", "A: TLC enumerates the complete labelled state graph of the implementation-level machine of Apq for the bounded alphabet (texts x request forms x cache map/LRU cap); every edge is replayed on the real server at least 3 times (POST, GET, mixed+query cache) inside tours from the initial state and compared exactly (differences = impl_level_drift); a case class is (cache kind, request form, specification outcome). B: seeded random histories over a larger alphabet, recorded on the real server. VERDICT: every observed history of A and B is validated by TLC against the property-level relation Apq!PropRel (ApqPropTrace); a case class is (cache kind, request form, observed outcome class). A case is non-trivial by construction: every class is a distinct (form, outcome) pair; evaluations = requests sent.")
 	c.Assume("the inspection of the LRU (reflection on the wrapped hashicorp cache: Keys, Peek) does not change its recency order")
 	c.Assume("the Cache decorator serialises cache operations with its own mutex; a request performs at most one cache operation (checked), which is its linearisation point in concurrent histories")
 	c.Assume("SHA-256 is injective on the concrete texts used (the specification's HashOf is injective on the alphabet)")
-	c.Assume("error sub-classes (mismatch / invalid / version) are compared structurally as 'rejected inside the mutator chain'; their wording is informative only; PersistedQueryNotFound is compared by message")
+	c.Assume("a rejection is any error response without execution; PersistedQueryNotFound is recognised by its message")
+	c.Assume("which text was executed is read off the root fields in the response data produced by the hand-written schema (one distinct field per abstract text)")
 	c.Finish()
 }
